@@ -77,7 +77,10 @@ def pipeline(root):
             elif in_b and not in_a:
                 skip, n = a, b
             else:
-                raise AnalysisError("process_logits: an optional stage does not skip to its own input")
+                # neither alternative is the input of the other: the stage was applied to some other tensor
+                out.append(("bad-skip", n, {"why": f"when the stage is disabled the value is {vg.show(b, 2)}, which is not the tensor the enabled stage filters"}))
+                n = a if stage_of(a) is not None else b
+                continue
             out.append(("optional", n0_show(n), skip))
             continue
         st = stage_of(n)
@@ -124,7 +127,12 @@ def run(ctx: Ctx):
     if L is None:
         raise AnalysisError("process_logits: log_softmax operand not found")
     pipe = pipeline(L)
-    stages = [p[0] for p in pipe if p[0] not in ("optional",)]
+    badskip = [p for p in pipe if p[0] == "bad-skip"]
+    ctx.ob("C10.a", "process_logits:optional-stages-skip-to-their-input", not badskip, fi.loc,
+           "every optional stage (tanh / mask / top-k / top-p) is applied to the previous stage's result and skipping it yields exactly that result" if not badskip else
+           "an optional stage is not chained on the previous stage's result (a filter is applied to a stale tensor, or the disabled path returns a different tensor): " + str(badskip[0][2].get("why", "")),
+           construct="process_logits:stage-chaining")
+    stages = [p[0] for p in pipe if p[0] not in ("optional", "bad-skip")]
     want = ["topp", "topk", "temp", "mask", "tanh", "input"]
     ctx.ob("C10.a", "process_logits:stage-order", stages == want, fi.loc,
            f"from the output back to the input: {stages} (expected {want}: the -inf mask must be applied after the tanh clip and before temperature / top-k / top-p)",
